@@ -56,6 +56,24 @@ pub unsafe fn pshufb_model(
     core::mem::transmute(r)
 }
 
+/// `vpshufb` (256-bit): the 128-bit shuffle on each half independently.
+#[cfg(target_arch = "x86_64")]
+pub unsafe fn pshufb256_model(
+    a: core::arch::x86_64::__m256i,
+    b: core::arch::x86_64::__m256i,
+) -> core::arch::x86_64::__m256i {
+    let a: [u8; 32] = core::mem::transmute(a);
+    let b: [u8; 32] = core::mem::transmute(b);
+    let mut r = [0u8; 32];
+    let mut i = 0;
+    while i < 32 {
+        let base = i & 16;
+        r[i] = if b[i] & 0x80 != 0 { 0 } else { a[base + (b[i] & 0xF) as usize] };
+        i += 1;
+    }
+    core::mem::transmute(r)
+}
+
 pub fn yes() -> bool {
     true
 }
